@@ -334,10 +334,16 @@ type rawKey struct {
 	enc         string
 }
 
+// configFree: defects of the free list, and of /Size in incremental updates, are keyed without the writer configuration.
+func configFree(k rawKey) bool {
+	return strings.HasPrefix(k.kind, "free-") || (k.incr && (k.kind == pdfstrict.KindTrailerSize || k.kind == pdfstrict.KindSectionSize))
+}
+
 func (k rawKey) String(writer, eol string) string {
-	if strings.HasPrefix(k.kind, "free-") {
-		// the free list is linked before anything is serialised: neither the cross-reference format nor the
-		// end-of-line sequence is part of what fails (the first case in the violation text names both)
+	if configFree(k) {
+		// the free list is linked (and, for an increment, /Size is fixed) before anything is serialised: neither
+		// the cross-reference format nor the end-of-line sequence is part of what fails (the violation text
+		// names both for the first case)
 		if k.incr {
 			return "defect=" + k.kind + "/incr"
 		}
@@ -371,7 +377,7 @@ func hasKind(o caseOut, k rawKey) (found, ran bool) {
 // dimension along which the defect reproduces under all values (that the operation survives) is written "*".
 func (r *runner) generalise(i int, k rawKey, w writerConf, a encAlg) string {
 	writer, eol := k.writer, k.eol
-	if strings.HasPrefix(k.kind, "free-") {
+	if configFree(k) {
 		return k.String(writer, eol)
 	}
 	all, any := true, false
